@@ -71,7 +71,8 @@ def coq_case(case, obs):
 
 def rand_track(rng):
     k = rng.randint(1, 5)
-    vals = lambda: [rng.choice([0, 1, 2, 3, -1, -2, 0.5, 4, None] if rng.random() < 0.25 else [1, 2, 3, -1, -2, 0.5, 4]) for _ in range(k)]
+    pn = rng.choice([0.0, 0.03, 0.03, 0.03, 0.4])                     # one track in five is rich in undefined (NaN) feature values, at any position
+    vals = lambda: [None if rng.random() < pn else rng.choice([0, 1, 2, 3, -1, -2, 0.5, 4] if rng.random() < 0.25 else [1, 2, 3, -1, -2, 0.5, 4]) for _ in range(k)]
     return {'X': [float(rng.randint(-3, 3)) for _ in range(k)], 'Y': [float(rng.randint(-3, 3)) for _ in range(k)],
             'Z': [float(rng.randint(0, 2)) for _ in range(k)], 'a': vals(), 'b': vals(), 's': vals()}
 
@@ -147,6 +148,7 @@ S_PROGRAMS = Stream(
 
 PREC = {'<': 1, '>': 1, '+': 2, '-': 2, '*': 4, '/': 4, '^': 6}
 TNAMES = ['a', 'b', 's', 'x', 'y', 'z', 'idx']
+AGG = ['SUM', 'AVG', 'MIN', 'MAX']
 
 
 class Undefined(Exception):
@@ -166,21 +168,24 @@ def lit_only(e):
     return lit_only(e[2]) and lit_only(e[3])
 
 
-def gen_tree(rng, d):
+def gen_tree(rng, d, top=True):
+    if top and rng.random() < 0.12:                                    # an aggregate directly over a feature, alone or inside arithmetic
+        t = ['fun', rng.choice(AGG), ['name', rng.choice(['a', 'b', 's'])]]
+        return t if rng.random() < 0.5 else ['bin', rng.choice(['+', '-', '*']), t, gen_tree(rng, 1, False)]
     r = rng.random()
     if d == 0 or r < 0.22:
         return ['name', rng.choice(TNAMES)] if rng.random() < 0.7 else ['lit', rng.choice(['2', '3', '0.5', '10', '1', '0'])]
     if r < 0.72:
-        return ['bin', rng.choice(list(PREC)), gen_tree(rng, d - 1), gen_tree(rng, d - 1)]
+        return ['bin', rng.choice(list(PREC)), gen_tree(rng, d - 1, False), gen_tree(rng, d - 1, False)]
     if r < 0.80:
-        return ['neg', gen_tree(rng, d - 1)]
+        return ['neg', gen_tree(rng, d - 1, False)]
     if r < 0.88:
-        return ['par', gen_tree(rng, d - 1)]
+        return ['par', gen_tree(rng, d - 1, False)]
     while True:
-        arg = gen_tree(rng, d - 1)
+        arg = gen_tree(rng, d - 1, False)
         if not lit_only(arg):
             break
-    return ['fun', rng.choice(FUN), arg]
+    return ['fun', rng.choice(FUN + AGG), arg]                     # aggregates twice as likely: their treatment of undefined values is the part only an oracle sees
 
 
 def prec(e):
